@@ -4223,6 +4223,7 @@ class EntityMeta(type):
         attr_offsets = {}
         used_columns = set()
         for attr in chain(entity._attrs_with_columns_, entity._subclass_attrs_):
+            if not attr.columns: continue
             offsets = []
             for column in attr.columns:
                 try: offset = col_names.index(column.upper())
